@@ -134,6 +134,15 @@ fn drive_convert<S: Src>(o: &mut Obs, src: &S, dwarf: &read::Dwarf<S::R>, cfg: &
                 o.done(p);
             }
         }
+        // the whole program in one call (reads the rows and generates the new program)
+        if let Some(program) = c!(o, "DebugLine::program", dwarf.debug_line.program(DebugLineOffset(0), 8, None, None)) {
+            let mut out = write::Dwarf::new();
+            if let Some(conv) = c!(o, "write::Dwarf::read_line_program", out.read_line_program(dwarf, program, None, None)) {
+                if let Some((prog, files)) = c!(o, "ConvertLineProgram::convert", conv.convert(&conv_addr)) {
+                    let _ = v!(o, "write::LineProgram::accessors", (prog.is_empty(), prog.files().count(), files.len()));
+                }
+            }
+        }
         if let Some(program) = c!(o, "DebugLine::program", dwarf.debug_line.program(DebugLineOffset(0), 8, None, None)) {
             let mut out = write::Dwarf::new();
             if let Some(mut conv) = c!(o, "write::Dwarf::read_line_program", out.read_line_program(dwarf, program, None, None)) {
